@@ -15,9 +15,9 @@
 (* is the sequence of the element texts, also when a text contains a comma.*)
 (***************************************************************************)
 EXTENDS Naturals, Sequences, FiniteSets, TLC
-SecH == {"s1", "s2", "s3"}
+SecH == {"s1", "s2", "s3", "s4"}
 PropH == {"p1", "p2", "p3", "p4", "p5"}
-SecGroups == {{"s1", "s2"}, {"s3"}}
+SecGroups == {{"s1", "s2"}, {"s3"}, {"s4"}}        \* s3 and s4 are cousins carrying the same name
 PropGroups == {{"p1", "p2", "p5"}, {"p3"}, {"p4"}}
 Lifted == {"unit", "dtype", "uncertainty", "value_origin", "definition", "reference"}
 SeqRange(s) == {s[i] : i \in DOMAIN s}
